@@ -54,7 +54,7 @@ def main():
                 line = [l for l in r.stdout.splitlines() if l.startswith("  clause")][:1]
                 print(f"{prop} {name}: {status} {line[0][:160] if line else ''}")
                 if r.returncode == 2:
-                    print(r.stdout[-1500:], r.stderr[-1500:])
+                    print("   ", (r.stdout[-400:] + r.stderr[-300:]).replace("\n", " | ")[-500:])
                 results.append((prop, name, status))
             finally:
                 shutil.rmtree(d, ignore_errors=True)
